@@ -37,14 +37,18 @@ DecodeOK(ev) ==
 \* 1e-9 (f64) / 3e-2 (f32): > 100x the largest error seen on the unchanged tree, << 1 (a mis-routed message).
 \* Only inside the arithmetic's working range (Arith.tla: phi/tanh lose all precision beyond |LLR| ~ 12 in f32,
 \* ~ 30 in f64); the largest posterior magnitude bounds the internal messages on a forest.
-TolPosterior(f32) == IF f32 THEN -150 ELSE -900
+\* ... and never below the rounding floor of the phi / tanh rules themselves: messages of magnitude m are carried as phi(m) ~ 2 e^-m, so one
+\* unit in the last place of a sum of phis is an LLR error of about eps * e^m (centibels: 100 log10(eps) + 43.4 m; 60 cB of margin)
+TolPosterior(f32, m) == LET base == IF f32 THEN -150 ELSE -900
+                            floor == (IF f32 THEN -692 ELSE -1566) + 44 * m + 60
+                        IN IF floor > base THEN floor ELSE base
 MaxRefc(ev) == CHOOSE m \in { ev.refc[v] : v \in 1..ev.n } : \A v \in 1..ev.n : ev.refc[v] <= m
 InRange(ev) == MaxRefc(ev) <= (IF ev.f32 THEN 9 ELSE 25)
 PostOK(ev) ==
   /\ ev.o = "ok" /\ ev.len = ev.n /\ Len(ev.err_cb) = ev.n
   /\ \A c \in 1..Len(ev.rows) : Len(ev.rows[c]) >= 2
   \* "after at least graph-diameter iterations": rounds = message-passing rounds the decoder really ran (counted by the wrapper)
-  /\ ((InRange(ev) /\ ev.rounds >= ev.diam) => \A v \in 1..ev.n : ev.err_cb[v] <= TolPosterior(ev.f32))
+  /\ ((InRange(ev) /\ ev.rounds >= ev.diam) => \A v \in 1..ev.n : ev.err_cb[v] <= TolPosterior(ev.f32, MaxRefc(ev)))
 
 \* the built-in 8-bit decoders (factory-built, reused for three calls) return exactly what the textbook schedule
 \* composed with the exact integer rule set of Arith.tla returns (BP8.tla)
